@@ -114,8 +114,9 @@ Inductive exc := EAttrCache | EAttrMeth | EUnresolved | EBuildCycle.
 
 (* method name used for a nested dataclass position with specialisation [spec] inside method m *)
 Definition nested (m: mname) (spec: nat) : mname := MN (m_pack m) (m_fmt m) false spec.
-(* the lazy stub rebuilds CodeBuilder(cls, first_method, ..., encoder/decoder) WITHOUT type_args *)
-Definition stub_target (m: mname) : mname := MN (m_pack m) (m_fmt m) (m_top m) 0.
+(* the lazy stub rebuilds CodeBuilder(cls, type_args, first_method, ..., encoder/decoder): the very method it stands for
+   (the type arguments are passed by name through the stub's globals) *)
+Definition stub_target (m: mname) : mname := m.
 (* the dialect branch builds CodeBuilder(cls, dialect=d, format_name) without encoder and type_args *)
 Definition dialect_target (m: mname) : mname := MN (m_pack m) (m_fmt m) false 0.
 
